@@ -24,6 +24,7 @@ func init() {
 			{ID: "C14.R3", Text: "forwarder: filter = helpers.IsMetadata(payload); metadata branch ⇒ position writer called once with dirty=false, save flag untouched, consumer not called", Run: c14r3},
 			{ID: "C14.R5", Text: "absorbed events still advance the position: with dirty=false the writer stores under exactly the same conditions (same rule as C04.R1)", Run: c04r1},
 			{ID: "C14.R6", Text: "nothing but the flag makes a save write: Checkpoint.Save hands the backend exactly the dirty marks (a copy of GetOffsets()#1) and attempts the write only when the save flag is up — absorbed events, which never mark or flag, cannot cause a checkpoint write (same rule as C05.R3)", Run: c05r3},
+			{ID: "C14.R7", Text: "reserved-key events still advance the position: the reserved-key branch of the forwarder calls the position writer exactly once (same rule as C04.R10, absorb part)", Run: absorbMoves},
 			{ID: "C14.R4", Text: "getCheckpointID: result = Prefix + groupName + const + Itoa(vbID); panics ⇔ groupName contains '.'", Run: c14r4},
 		},
 	})
